@@ -364,12 +364,72 @@ def canon_val(v):
     return "ok value-of-type-" + type(v).__name__
 
 
+# ---- input forms of the `array` argument of Tensor(dom, cod, array) (round 7) ------------------
+# The constructor takes anything numpy.array() takes; the tensor it builds is the row-major (C order)
+# reading of the LOGICAL array, whatever the container, the shape it comes in (flat, dom @ cod, the
+# matrix shape (prod dom, prod cod)) and the MEMORY layout of an ndarray (C, Fortran, transposed or
+# strided views).  The model's value is the list of logical entries, so every form asks the same line.
+ARRAY_FORMS = ["list", "tuple", "nested-list", "nd-flat", "nd-full-C", "nd-full-F", "nd-matrix-C",
+               "nd-matrix-F", "nd-matrix-transposed-view", "nd-strided-view", "nd-full-moved-view",
+               "nd-readonly"]
+FORM_COUNTS = {}
+
+
+def array_in_form(dom, cod, data, form):
+    """The same logical entries `data` (row-major over dom @ cod) handed over in another form."""
+    data = list(data)
+    full = tuple(dom) + tuple(cod) or (1,)
+    mat = (size(dom), size(cod))
+    if form == "list":
+        return data
+    if form == "tuple":
+        return tuple(data)
+    base = np.array(data).reshape(full) if data else np.zeros(full)
+    if form == "nested-list":
+        return base.tolist()
+    if form == "nd-flat":
+        return np.array(data)
+    if form == "nd-full-C":
+        return np.ascontiguousarray(base)
+    if form == "nd-full-F":
+        return np.asfortranarray(base)
+    if form == "nd-matrix-C":
+        return np.ascontiguousarray(base.reshape(mat))
+    if form == "nd-matrix-F":
+        return np.asfortranarray(base.reshape(mat))
+    if form == "nd-matrix-transposed-view":         # M.T of the C-ordered transpose: F-contiguous view
+        return np.ascontiguousarray(base.reshape(mat).T).T
+    if form == "nd-strided-view":                   # every second entry of a twice as long buffer
+        buf = np.zeros(2 * len(data) or 2, dtype=base.dtype)
+        buf[::2][:len(data)] = data
+        return buf[::2][:len(data)] if data else np.zeros(full)
+    if form == "nd-full-moved-view":                # axes rotated in memory, logical array unchanged
+        if base.ndim < 2:
+            return base
+        return np.ascontiguousarray(np.moveaxis(base, 0, -1)).transpose(
+            (base.ndim - 1,) + tuple(range(base.ndim - 1)))
+    if form == "nd-readonly":
+        out = np.array(data).reshape(mat) if data else np.zeros(mat)
+        out.setflags(write=False)
+        return out
+    raise ValueError(form)
+
+
+def pick_form(dom, cod, data):
+    """Deterministic in the leaf (replays exactly), spread over all forms."""
+    import zlib
+    return ARRAY_FORMS[zlib.crc32(repr((tuple(dom), tuple(cod), list(data))).encode())
+                       % len(ARRAY_FORMS)]
+
+
 def run_texpr(e):
     """Evaluate a tensor expression with discopy's Tensor."""
     from discopy.tensor import Tensor, Dim, Spider
     op = e[0]
     if op == "T":
-        return Tensor(Dim(*e[1]), Dim(*e[2]), list(e[3]))
+        form = pick_form(e[1], e[2], e[3])
+        FORM_COUNTS[form] = FORM_COUNTS.get(form, 0) + 1
+        return Tensor(Dim(*e[1]), Dim(*e[2]), array_in_form(e[1], e[2], e[3], form))
     conv = e[-1] if isinstance(e[-1], str) else None
     if op == "id":
         if conv == "default":           # `Tensor.id()`: the default argument Dim(1)
